@@ -368,15 +368,17 @@ def run_impl(texts, nproc=8):
 
 # ---------------------------------------------------------------- cases
 class Case:
-    __slots__ = ("fname", "key", "a", "b", "text", "req")
+    __slots__ = ("fname", "key", "a", "b", "text", "req", "computed")
 
-    def __init__(self, fname, key, a, b=None):
+    def __init__(self, fname, key, a, b=None, ta=None, tb=None):
+        """ta / tb: Klong source text that COMPUTES the operand a / b (same value, other in-memory representation)"""
         self.fname, self.key, self.a, self.b = fname, key, a, b
+        self.computed = (ta is not None) or (tb is not None)
         if b is None:
-            self.text = "%s(%s)" % (key, render(a))
+            self.text = "%s(%s)" % (key, ta or render(a))
             self.req = sx(["m", fname, to_sx(a)])
         else:
-            self.text = "(%s)%s(%s)" % (render(a), key, render(b))
+            self.text = "(%s)%s(%s)" % (ta or render(a), key, tb or render(b))
             self.req = sx(["d", fname, to_sx(a), to_sx(b)])
 
     def ident(self):
@@ -397,6 +399,86 @@ def all_cases(keys_m, keys_d, U, monads=None, dyads=None):
                     if not hangs(f, a, b):
                         cs.append(Case(f, keys_d[f], a, b))
     return cs
+
+
+# ---- representation variation: the same value built by value-preserving verbs instead of written as a literal.
+# A list of equal-length sublists is a 2-D numeric array as a literal, but a 1-D object array of row arrays when it is a
+# slice of a mixed list; code that consults dtype / shape / size must not let the result depend on that.
+def rep_forms(v):
+    """[(route name, Klong text)] for a list or string operand"""
+    t, x = v
+    lit_ = render(v)
+    out = []
+    if t == "l":
+        out.append(("drop-of-mixed", '(-1)_((%s),,"x")' % lit_))
+        out.append(("take-of-mixed", '(%d)#((%s),,:x)' % (len(x), lit_)))
+        out.append(("reverse-twice", "|(|(%s))" % lit_))
+        out.append(("take-all", "(#(%s))#(%s)" % (lit_, lit_)))
+        k = len(x) // 2
+        out.append(("join-of-halves", "((%d)#(%s)),((%d)_(%s))" % (k, lit_, k, lit_)))
+        out.append(("reverse-of-mixed", '1_|(|(%s)),,0cq' % lit_))
+    elif t == "s":
+        out.append(("reverse-twice", "|(|(%s))" % lit_))
+        out.append(("join-of-halves", "((%d)#(%s)),((%d)_(%s))" % (len(x) // 2, lit_, len(x) // 2, lit_)))
+    return out
+
+
+def rep_operands(U, tier):
+    """operands of U with computed forms whose value (canonical form) equals the literal's; [(value, route, text)]"""
+    cands = [v for v in U if v[0] in ("l", "s")]
+    texts, idx = [], []
+    for v in cands:
+        texts.append(render(v))
+        idx.append((v, None))
+        for name, tx in rep_forms(v):
+            texts.append(tx)
+            idx.append((v, name))
+    res = run_impl(texts)
+    lit_val = {}
+    out = []
+    for (v, name), tx, r in zip(idx, texts, res):
+        if name is None:
+            lit_val[render(v)] = r
+        elif r == lit_val.get(render(v)) and not r.startswith("ERR") and r != "HANG":
+            out.append((v, name, tx))
+    return out
+
+
+def rep_partners(v):
+    wrap = ("l", [I(7), v, I(8)])
+    return [v, wrap, I(0), I(1), I(2), I(-1), lit([1]), lit([0, 1]), lit([1, 2, 3, 4, 5, 6]), S("ab"), R(2.5)]
+
+
+def rep_cases(keys_m, keys_d, U, tier, rng):
+    ops = rep_operands(U, tier)
+    if tier != "thorough":
+        # a fixed representative subset: every route on matrices / rank 3 / ragged / mixed lists, two routes on the rest
+        keep = []
+        for v, name, tx in ops:
+            t, x = v
+            nested = t == "l" and any(e[0] == "l" for e in x)
+            if nested or name in ("drop-of-mixed", "join-of-halves"):
+                keep.append((v, name, tx))
+        ops = keep
+    cs = []
+    for v, name, tx in ops:
+        for f in MODELLED_MONADS:
+            if f in keys_m and not hangs(f, v, None):
+                cs.append(Case(f, keys_m[f], v, ta=tx))
+        partners = rep_partners(v)
+        if tier != "thorough" and not (v[0] == "l" and any(e[0] == "l" for e in v[1])):
+            partners = partners[:2] + [I(1), I(-1), lit([0, 1])]
+        for f in MODELLED_DYADS:
+            if f not in keys_d:
+                continue
+            for p_ in partners:
+                if not hangs(f, v, p_):
+                    cs.append(Case(f, keys_d[f], v, p_, ta=tx))
+                if not hangs(f, p_, v):
+                    cs.append(Case(f, keys_d[f], p_, v, tb=tx))
+            if not hangs(f, v, v):
+                cs.append(Case(f, keys_d[f], v, v, ta=tx, tb=tx))
+    return cs, len(ops)
 
 
 def quick_cases(keys_m, keys_d, U, rng, n_sample):
@@ -475,6 +557,23 @@ def evaluate(chk, cases, out, seen):
             if not canonical:
                 chk.count("noncanonical_spec_only")
             agrees = same(iv, s) and s[0] == "ok"
+            if c.computed:
+                # representation variation: only the property oracle applies (the model describes literal operands)
+                chk.count("representation_variants")
+                chk.count("representation_variants_in_dom")
+                if s[0] != "ok":
+                    pass
+                elif agrees:
+                    pass
+                else:
+                    kk = k or REP_CLASS.get(c.fname, "")
+                    rec = dict(c.ident(), expected=s[1], actual=iv[1] if iv[0] == "ok" else iv[0] + ":" + str(iv[1]))
+                    if kk == "":
+                        out.prop_bad.append(rec)
+                    else:
+                        chk.count("known_class_fails:%s" % kk)
+                        out.known_hits.setdefault(kk, rec)
+                continue
             if s[0] != "ok":
                 out.corr_bad.append(dict(c.ident(), why="spec undefined inside its own domain", spec=s[0]))
             elif k == "":
@@ -498,6 +597,9 @@ def evaluate(chk, cases, out, seen):
                 chk.sample({"klong": c.text, "result": iv[1]})
         else:
             chk.count("outside_dom")
+            if c.computed:
+                chk.count("representation_variants")
+                continue
             if m[0] in ("ok", "err"):
                 chk.count("model_compared_outside_dom")
                 if not same(iv, m):
@@ -507,6 +609,10 @@ def evaluate(chk, cases, out, seen):
                         out.outside_mismatch.append(dict(c.ident(), model=m[1] if m[0] == "ok" else m[0],
                                                          actual=iv[1] if iv[0] == "ok" else iv[0] + ":" + str(iv[1])))
 
+
+# verbs whose known-finding class depends on the in-memory representation of an operand, not only on its value:
+# np.minimum / np.maximum / np.fmod have no usable object loop, and a computed list of rows IS an object array
+REP_CLASS = {"eval_dyad_minimum": "no-object-loop", "eval_dyad_maximum": "no-object-loop", "eval_dyad_remainder": "no-object-loop"}
 
 # witnesses of the Coq `_refuted` theorems, replayed on the implementation at every run: class -> (function, a, b)
 WITNESSES = {
